@@ -17,7 +17,7 @@ ID = "C15"
 LEVEL = "model_checking"
 ENGINE = "E3"
 TECHNIQUE = "controlled-scheduler exploration (iterative deviation bounding) of the real asyncio drivers on a virtual event loop against gateway models; wire log vs independent per-caller expansion"
-RULE = ("scenario = driver x ordered list of callers from {P single command, Q query, D device-type command, T send-twice, "
+RULE = ("scenario = driver x ordered list of callers from {P single command, Q query, D device-type command, C device-type send-twice command, T send-twice, "
         "S multi-command sequence with device type + sleep, R sequence that raises, X cancellable sequence}; all schedules with "
         "<= d deviations over {run batch, gateway report, start next caller, timer, cancel}; states = distinct (wire order, caller "
         "outcomes) observations, transitions = scheduler events executed, traces = executions")
@@ -29,10 +29,10 @@ ASSUMPTIONS = [
 ]
 SANITY = ["wire_frames_tridonic", "wire_frames_hasseb", "wire_frames_luba", "wire_frames_sci", "executions_with_cancel",
           "executions_with_two_callers_on_the_wire"]
-BOUNDS = {"quick": "4 drivers x (49 ordered caller pairs at d<=1, 12 pairs at d<=2, 27 triples at d<=1)",
-          "thorough": "4 drivers x (all pairs at d<=2, 6 pairs at d<=3, all 343 triples at d<=1, 27 triples at d<=2, 16 quadruples at d<=1)"}
+BOUNDS = {"quick": "4 drivers x (64 ordered caller pairs at d<=1, 12 pairs at d<=2, 27 triples at d<=1)",
+          "thorough": "4 drivers x (all pairs at d<=2, 6 pairs at d<=3, all 512 triples at d<=1, 27 triples at d<=2, 16 quadruples at d<=1)"}
 
-KINDS = ["P", "Q", "D", "T", "S", "R", "X"]
+KINDS = ["P", "Q", "D", "C", "T", "S", "R", "X"]
 DRIVERS = ["tridonic", "hasseb", "luba", "sci"]
 DT = {1: 6, 2: 8, 3: 1, 4: 4}
 
@@ -63,6 +63,8 @@ def unit_descs(kind, k):
         return [(dt_cmd_desc(k), DT[k])]
     if kind == "T":
         return [((G, "SetScene", (a, k)), 0)]
+    if kind == "C":         # device-type specific AND send-twice
+        return [(("gear.led", "SelectDimmingCurve", (a,)), 6)]
     if kind in ("S", "X"):
         return [((G, "DTR0", (k,)), 0), ((G, "SetFadeTime", (a,)), 0), (dt_cmd_desc(k), DT[k]),
                 ((G, "QueryStatus", (a,)), 0)]
@@ -102,7 +104,7 @@ def make_caller(kind, k, gens):
         largs = [GearShort(x[1]) if isinstance(x, tuple) else x for x in args]
         return cls(*largs)
     descs = [d for d, dt in unit_descs(kind, k)]
-    if kind in ("P", "Q", "D", "T"):
+    if kind in ("P", "Q", "D", "T", "C"):
         async def co(w):
             return await w.driver.send(lib(descs[0]))
         return Caller(f"{kind}{k}", co)
@@ -154,33 +156,34 @@ def make_world(driver, kinds):
 # ----------------------------------------------------------------------------- oracle
 
 def partition(wire, units, outcomes):
-    """Is the wire log a concatenation of caller units (full for completed callers, a prefix
-    for raised / cancelled ones), each caller at most once?  Returns None or an error string."""
-    pos = 0
-    used = set()
+    """Is the wire log a concatenation of caller units (full for callers that returned, any
+    prefix for raised / cancelled ones), each caller at most once?  Backtracking search (an
+    ENABLE DEVICE TYPE frame can belong to either of two callers using the same device type).
+    Returns None or an error string."""
     n = len(wire)
-    while pos < n:
-        best = None
-        for name, frames in units.items():
-            if name in used or not frames:
+    names = [nm for nm in units if units[nm]]
+
+    def rec(pos, used):
+        if pos == n:
+            for nm in names:
+                if nm not in used and outcomes[nm][0] == "returned":
+                    return False
+            return True
+        for nm in names:
+            if nm in used:
                 continue
+            frames = units[nm]
             m = 0
             while m < len(frames) and pos + m < n and wire[pos + m] == frames[m]:
                 m += 1
-            if m and (best is None or m > best[1]):
-                best = (name, m)
-        if best is None:
-            return f"frame #{pos} {fmt(wire[pos])} does not continue any caller unit (wire: {[fmt(x) for x in wire]})"
-        name, m = best
-        full = len(units[name])
-        if m < full and outcomes[name][0] == "returned":
-            return f"caller {name} completed but only {m} of its {full} frames are contiguous at #{pos} (wire: {[fmt(x) for x in wire]})"
-        used.add(name)
-        pos += m
-    for name, frames in units.items():
-        if name not in used and outcomes[name][0] == "returned" and frames:
-            return f"caller {name} returned but none of its frames were sent"
-    return None
+            lens = [len(frames)] if outcomes[nm][0] == "returned" else range(m, 0, -1)
+            for L in lens:
+                if L <= m and rec(pos + L, used | {nm}):
+                    return True
+        return False
+    if rec(0, frozenset()):
+        return None
+    return f"the wire {[fmt(x) for x in wire]} is not a concatenation of whole caller units {{{', '.join(nm + ': ' + ' '.join(fmt(x) for x in fr) for nm, fr in units.items())}}} (outcomes {[(nm, outcomes[nm][0]) for nm in names]})"
 
 
 def fmt(f):
@@ -207,10 +210,9 @@ def judge(res, driver, kinds, w, obs):
     err = partition(wire, units, outcomes)
     if err:
         # name the two most useful classes of interleaving defect
-        key = "prefix-not-adjacent" if "c1" in err.lower() or any(fmt(x).startswith("0xc1") for x in wire) and "does not continue" in err else "unit-interleaved"
-        missing_prefix = any(units[nm] and not _has_prefixes(wire, units[nm]) for nm in names)
-        if missing_prefix:
-            key = "devicetype-prefix-missing"
+        key = "unit-interleaved"
+        if any(units[nm] and not _has_prefixes(wire, units[nm]) for nm in names):
+            key = "devicetype-prefix-missing-or-not-adjacent"
         add_violation(res, f"C15:{tag}:{key}", f"{driver} callers {kinds}: {err}", case)
     for nm, oc in outcomes.items():
         kd = nm[0]
